@@ -68,13 +68,22 @@ class NDesc(object):
             i = self.nodes[i]['parent']
         return list(reversed(p))
 
+    def obj(self, i):
+        """the state OBJECT the node is: its own number, or — for the copy of an embedded child machine's state
+        under a second host — the number of the node under the first host (`nodes[i]['obj']`)"""
+        return self.nodes[i].get('obj', i)
+
     def full_name(self, i):
-        return SEP.join(seg(x) for x in self.path(i))
+        return SEP.join(seg(self.obj(x)) for x in self.path(i))
 
     def rel_name(self, i, scope):
         p = self.path(i)
         k = p.index(scope)
-        return SEP.join(seg(x) for x in p[k + 1:])
+        return SEP.join(seg(self.obj(x)) for x in p[k + 1:])
+
+    def shared(self):
+        objs = [self.obj(i) for i in range(len(self.nodes))]
+        return set(o for o in objs if objs.count(o) > 1)
 
     def depth(self, i):
         return len(self.path(i)) - 1
@@ -84,7 +93,7 @@ class NDesc(object):
         o = [len(self.nodes)]
         for i, n in enumerate(self.nodes):
             f = n['final'] if finals is None else finals[i]
-            o += [i, int(bool(f)), len(n['cbs'])] + list(n['cbs'])
+            o += [i, int(bool(f)), len(n['cbs'])] + list(n['cbs']) + [self.obj(i)]
         return o + [len(self.mcbs)] + list(self.mcbs)
 
 
@@ -108,7 +117,7 @@ def request(d, roots, entered, finals=None):
 
 
 def parse_answer(ans):
-    """`S <owners> <cbs> C <0 owners cbs | 1> W <wf> <nodup>`"""
+    """`S <owners> <cbs> C <0 owners cbs | 1> W <wf> <nodup> <noshared>`"""
     if not ans.startswith('S '):
         raise common.MachineryError('driver answered %r to a c18 request' % ans[:200])
     s, rest = ans[2:].split(' C ')
@@ -125,7 +134,7 @@ def parse_answer(ans):
     wn = [int(x) for x in w.split()]
     spec = two(sn)
     code = None if cn[0] == 1 else two(cn[1:])
-    return {'spec': spec, 'code': code, 'wf': bool(wn[0]), 'nodup': bool(wn[1])}
+    return {'spec': spec, 'code': code, 'wf': bool(wn[0]), 'nodup': bool(wn[1]), 'noshared': bool(wn[2])}
 
 
 # ---------------------------------------------------------------------------------------------
@@ -238,6 +247,81 @@ def gen_desc(rng, kn=None, kind=0):
     return d
 
 
+def gen_embedded(rng, kind=0):
+    """one child machine instance embedded as `children` of several states (regions of a parallel state, or
+    alternatives of a compound): root 0 = leaf, root 1 = P with 2-3 regions, most of which host the SAME child
+    machine (1-3 flat states + possibly one compound); the copies share their state objects (`obj`)."""
+    d = NDesc()
+    d.kind = kind
+
+    def add(parent, **kw):
+        i = len(d.nodes)
+        nd = {'parent': parent, 'kids': [], 'init': [], 'final': False, 'cbs': []}
+        nd.update(kw)
+        d.nodes.append(nd)
+        if parent is None:
+            d.roots.append(i)
+        else:
+            d.nodes[parent]['kids'].append(i)
+        return i
+    nxt = [1]
+
+    def cbs():
+        r = rng.random()
+        n = 0 if r < 0.05 else (1 if r < 0.85 else 2)
+        out = list(range(nxt[0], nxt[0] + n))
+        nxt[0] += n
+        return out
+    pf = rng.choice([0.3, 0.5, 0.8])
+    add(None, cbs=cbs(), final=rng.random() < 0.2)
+    P = add(None, cbs=cbs(), final=rng.random() < 0.2)
+    # shape of the child machine: list of (final, [sub finals])
+    child = []
+    for _ in range(rng.randint(2, 3)):
+        sub = [rng.random() < pf for _ in range(rng.randint(1, 2))] if rng.random() < 0.25 else []
+        child.append((rng.random() < pf, sub))
+    if not any(f or any(sub) for f, sub in child):
+        child[-1] = (True, child[-1][1])
+    child_init = rng.randrange(len(child))
+    canon = None
+    for _r in range(rng.randint(2, 3)):
+        R = add(P, cbs=cbs(), final=rng.random() < 0.2)
+        if canon is not None and rng.random() < 0.15:
+            k = add(R, cbs=cbs(), final=rng.random() < pf)      # a plain region
+            d.nodes[R]['init'] = [k]
+            continue
+        d.nodes[R]['emb'] = True
+        ids = []
+        for ci, (f, sub) in enumerate(child):
+            if canon is None:
+                k = add(R, cbs=cbs(), final=f)
+                for sf in sub:
+                    add(k, cbs=cbs(), final=sf)
+                if sub:
+                    d.nodes[k]['init'] = [d.nodes[k]['kids'][0]]
+            else:
+                c = canon[ci]
+                k = add(R, cbs=list(d.nodes[c]['cbs']), final=d.nodes[c]['final'], obj=c)
+                for sc in d.nodes[c]['kids']:
+                    add(k, cbs=list(d.nodes[sc]['cbs']), final=d.nodes[sc]['final'], obj=sc)
+                if sub:
+                    d.nodes[k]['init'] = [d.nodes[k]['kids'][0]]
+            ids.append(k)
+        d.nodes[R]['init'] = [ids[child_init]]
+        if canon is None:
+            canon = ids
+    regions = d.nodes[P]['kids']
+    d.nodes[P]['init'] = list(regions) if rng.random() < 0.8 else [rng.choice(regions)]
+    d.mcbs = cbs()
+    d.initial = 0
+    n = len(d.nodes)
+    d.history = [('to', rng.randrange(n)) for _ in range(rng.randint(3, 9))]
+    if kind == 1:
+        d.coro = [c for c in range(1, nxt[0]) if rng.random() < 0.6]
+        d.susp = [[c, rng.randint(1, 3)] for c in d.coro if rng.random() < 0.75]
+    return d
+
+
 # ---------------------------------------------------------------------------------------------
 # exhaustive small scope: every ordered forest with n nodes, every compound kind
 # ---------------------------------------------------------------------------------------------
@@ -346,15 +430,20 @@ class _Model(object):
     pass
 
 
-def parse_state(value):
+def parse_state(value, d=None):
     """model.state (a name or nested lists of names) → forest [(id, [kids…])…] in the order of the
-    machine's own state tree (`build_state_tree`: insertion order)"""
+    machine's own state tree (`build_state_tree`: insertion order); a name segment is the number of the state
+    OBJECT, the node id is found by walking the description (copies of an embedded machine share segments)"""
     roots = []
 
     def add(name):
         cur = roots
+        level = None if d is None else d.roots
         for part in name.split(SEP):
             i = int(part[1:])
+            if d is not None:
+                i = next((k for k in level if d.obj(k) == i), i)
+                level = d.nodes[i]['kids'] if i < len(d.nodes) else []
             for t in cur:
                 if t[0] == i:
                     cur = t[1]
@@ -394,6 +483,8 @@ class NRun(object):
         self.log = []
         self.model = _Model()
         self._snaps = {}
+        self.emb = {}
+        self._shared = desc.shared()
         self.is_async = desc.kind == 1
         self.machine = self.build()
 
@@ -403,7 +494,7 @@ class NRun(object):
         key = repr(v)
         fr = self._snaps.get(key)
         if fr is None:
-            fr = self._snaps[key] = freeze(parse_state(v))
+            fr = self._snaps[key] = freeze(parse_state(v, self.d))
         return fr
 
     def rec(self, make, cb=None, co=False, end=None, susp=0):
@@ -455,12 +546,20 @@ class NRun(object):
         d = self.d
         nd = d.nodes[i]
         sd = {'name': seg(i), 'final': bool(nd['final']),
-              'on_enter': [self.rec(lambda: ('enter', i, self.snap()), co=(i % 2 == 1), end=lambda: ('enter_end', i),
-                                   susp=i % 3)],
-              'on_exit': [self.rec(lambda: ('exit', i), co=(i % 3 == 0))],
+              'on_enter': [self.rec(lambda: ('enter', self.who(i), self.snap()), co=(i % 2 == 1),
+                                   end=lambda: ('enter_end', self.who(i)), susp=i % 3)],
+              'on_exit': [self.rec(lambda: ('exit', self.who(i)), co=(i % 3 == 0))],
               'on_final': [self.rec((lambda c: (lambda: ('final', i, c, self.snap())))(c), cb=c,
                                    end=(lambda c: (lambda: ('final_end', i, c)))(c)) for c in nd['cbs']]}
-        if nd['kids']:
+        if nd.get('emb'):
+            # the children are ONE child machine instance, possibly embedded under several hosts (README "reuse of
+            # previously created HSMs"): `_add_machine_states` adds the child's state objects themselves
+            key = tuple(d.obj(k) for k in nd['kids'])
+            if key not in self.emb:
+                self.emb[key] = self.machine_cls()(states=[self.node_def(k) for k in nd['kids']],
+                                                   initial=seg(d.obj(nd['init'][0])), auto_transitions=False)
+            sd['children'] = self.emb[key]
+        elif nd['kids']:
             kids = [self.node_def(k) for k in nd['kids']]
             if nd['init'] == nd['kids'] and len(kids) >= 2 and i % 2 == 0:
                 sd['parallel'] = kids            # the short handle for children + initial = all of them
@@ -475,12 +574,29 @@ class NRun(object):
             sd['transitions'] = local
         return sd
 
-    def build(self):
-        d = self.d
+    def machine_cls(self):
         if self.is_async:
             from transitions.extensions.asyncio import HierarchicalAsyncMachine as cls
         else:
             from transitions.extensions import HierarchicalMachine as cls
+        return cls
+
+    def who(self, i):
+        """the node a state callback runs for: for a state object that sits at several paths, the path is read
+        from the object's scoped name (`NestedState.name` while `scoped_enter` / `scoped_exit` run)"""
+        d = self.d
+        if d.obj(i) not in self._shared:
+            return i
+        st = self.machine.get_state(d.full_name(d.obj(i)))
+        forest = parse_state(st.name, d)
+        t = forest[0]
+        while t[1]:
+            t = t[1][0]
+        return t[0]
+
+    def build(self):
+        d = self.d
+        cls = self.machine_cls()
         states = [self.node_def(i) for i in d.roots]
         transitions = [self.trans_def(ti, t, False) for ti, t in enumerate(d.trans) if t['scope'] is None]
         return cls(model=self.model, states=states, transitions=transitions, initial=d.full_name(d.initial),
@@ -670,8 +786,10 @@ def judge_segment(d, final, sg):
     want = firing(final, Eset, roots)
     cbs_of = lambda o: (d.mcbs if o == -1 else d.nodes[o]['cbs'])       # noqa: E731
     got = sg.finals()
-    # multiplicity: exactly the callbacks of the owners that fire, once each
-    want_calls = sorted((o, c) for o in want for c in cbs_of(o))
+    # multiplicity: exactly the callbacks of the owners that fire, once each (owners are named by their state
+    # OBJECT here: the on_final recorder of an object that sits at several paths cannot tell them apart)
+    ob = lambda o: o if o == -1 else d.obj(o)       # noqa: E731
+    want_calls = sorted((ob(o), c) for o in want for c in cbs_of(o))
     got_calls = sorted(got)
     if want_calls != got_calls:
         missing = [x for x in want_calls if x not in got_calls]
@@ -682,11 +800,20 @@ def judge_segment(d, final, sg):
             problems.append('on_final run without cause (or twice) for %s' % sorted(set(o for o, _ in extra)))
     # order: children's callbacks before their parents', the machine's last
     anc = ancestors_in(roots)
-    for a in range(len(got)):
-        for b in range(a + 1, len(got)):
-            oa, ob = got[a][0], got[b][0]
-            if oa != ob and oa in anc.get(ob, ()):
-                problems.append('on_final of %s runs before on_final of its descendant %s' % (oa, ob))
+    node_of = lambda o: o        # noqa: E731
+    if d.shared():
+        # an observed owner is an object; it stands for the unique active node of that object that fires, if unique
+        by_obj = {}
+        for o in want:
+            by_obj.setdefault(ob(o), []).append(o)
+        node_of = lambda o: by_obj[o][0] if len(by_obj.get(o, [])) == 1 else None      # noqa: E731
+    got_n = [node_of(o) for o, _c in got]
+    got_n = [o for o in got_n if o is not None]
+    for a in range(len(got_n)):
+        for b in range(a + 1, len(got_n)):
+            oa, o2 = got_n[a], got_n[b]
+            if oa != o2 and oa in anc.get(o2, ()):
+                problems.append('on_final of %s runs before on_final of its descendant %s' % (oa, o2))
                 break
         else:
             continue
@@ -697,7 +824,8 @@ def judge_segment(d, final, sg):
         if ia[0] != 'final':
             continue
         for ib in items[a + 1:]:
-            if ib[0] == 'final_end' and ib[1] != ia[1] and ia[1] in anc.get(ib[1], ()):
+            if ib[0] == 'final_end' and ib[1] != ia[1] and node_of(ia[1]) is not None and \
+                    node_of(ia[1]) in anc.get(node_of(ib[1]), ()):
                 problems.append('on_final of %s starts before on_final of its descendant %s has completed' % (ia[1], ib[1]))
                 break
         else:
